@@ -322,14 +322,19 @@ func (p *Parser) parseBuffer(buf []byte, last bool) (err error) {
 			p.mode = ccommentMap
 			continue
 		case openObject:
-			if 256 < len(p.mode) {
-				switch p.mode[256] {
-				case 'n':
+			if 256 < len(p.mode) && (p.mode[256] == 'n' || p.mode[256] == 't') {
+				if p.mode[256] == 'n' {
 					if err = p.add(p.num.AsNum(), off); err != nil {
 						return
 					}
-				case 't':
+				} else {
 					p.addToken(off)
+				}
+				if depth == 0 {
+					// A top level value ended by this byte: hand it off
+					// below, then process the byte again.
+					off--
+					break
 				}
 			}
 			p.starts = append(p.starts, -1)
@@ -443,14 +448,19 @@ func (p *Parser) parseBuffer(buf []byte, last bool) (err error) {
 			p.ri = 0
 			continue
 		case openArray:
-			if 256 < len(p.mode) {
-				switch p.mode[256] {
-				case 'n':
+			if 256 < len(p.mode) && (p.mode[256] == 'n' || p.mode[256] == 't') {
+				if p.mode[256] == 'n' {
 					if err = p.add(p.num.AsNum(), off); err != nil {
 						return
 					}
-				case 't':
+				} else {
 					p.addToken(off)
+				}
+				if depth == 0 {
+					// A top level value ended by this byte: hand it off
+					// below, then process the byte again.
+					off--
+					break
 				}
 			}
 			p.starts = append(p.starts, len(p.stack))
@@ -609,14 +619,19 @@ func (p *Parser) parseBuffer(buf []byte, last bool) (err error) {
 			}
 			continue
 		case valSlash:
-			if 256 < len(p.mode) {
-				switch p.mode[256] {
-				case 'n':
+			if 256 < len(p.mode) && (p.mode[256] == 'n' || p.mode[256] == 't') {
+				if p.mode[256] == 'n' {
 					if err = p.add(p.num.AsNum(), off); err != nil {
 						return
 					}
-				case 't':
+				} else {
 					p.addToken(off)
+				}
+				if depth == 0 {
+					// A top level value ended by this byte: hand it off
+					// below, then process the byte again.
+					off--
+					break
 				}
 			}
 			p.mode = commentStartMap
